@@ -100,7 +100,8 @@ def bodies(tier):
                     out.append({"name": f"{combo}/{style}/{'T' if term else 'noT'}", "chunks": chunks,
                                 "style": style, "term": term, "mode": "chunked"})
     for mode in ("gzip", "compress", "deflate"):
-        for chunks in ([b"hello world"], [b"ab", b"\r\n0\r\n\r\n"], [b"x" * 40, b"y", b"zz"]):
+        for chunks in ([b"hello world"], [b"ab", b"\r\n0\r\n\r\n"], [b"x" * 40, b"y", b"zz"],
+                       [b"abc", b"", b"def"], [b"", b"tail"], [b"0", b"", b"", b"0\r\n"]):
             for term in (True, False):
                 out.append({"name": f"{mode}/{[len(c) for c in chunks]}/{'T' if term else 'noT'}",
                             "chunks": chunks, "style": "lower", "term": term, "mode": mode})
